@@ -1,7 +1,7 @@
 //! C15 — fixed-width big integers are integers modulo 2^(64N) with exact carry flags;
 //! NAF / relaxed-NAF / wNAF recodings reconstruct the value and obey their digit constraints.
 #![allow(deprecated)]
-use ark_ff::biginteger::arithmetic::{find_naf, find_relaxed_naf};
+use ark_ff::biginteger::arithmetic::{self as fa, find_naf, find_relaxed_naf};
 use ark_ff::{BigInt, BigInteger, BitIteratorBE, BitIteratorLE};
 use num_bigint::{BigInt as SBig, BigUint};
 use num_traits::{One, Zero};
@@ -239,6 +239,75 @@ fn arith<const N: usize>(t: &mut Tape<'_>, o: &mut Obs) -> R {
     ensure_eq!(big(&BigInt::<N>::from(w as u32).0), BigUint::from(w as u32), "from_u32");
     ensure_eq!(big(&BigInt::<N>::from(w as u16).0), BigUint::from(w as u16), "from_u16");
     ensure_eq!(big(&BigInt::<N>::from(w as u8).0), BigUint::from(w as u8), "from_u8");
+    // remaining trait surface of the type: Default, NUM_LIMBS, AsMut (writes through), Debug (prints the integer)
+    ensure_eq!(big(&BigInt::<N>::default().0), BigUint::zero(), "default");
+    ensure_eq!(<BigInt<N> as BigInteger>::NUM_LIMBS, N, "NUM_LIMBS");
+    let mut z = x;
+    z.as_mut().copy_from_slice(&b);
+    ensure_eq!(big(&z.0), bv, "as_mut");
+    let dbg = format!("{:?}", x);
+    ensure!(BigUint::from_str(&dbg).ok().as_ref() == Some(&av), "debug", "{{:?}} of {} = {:?}", hx(&av), dbg);
+    Ok(())
+}
+
+// ---------------------------------------------------------------------------------------
+// the public single-limb primitives of `biginteger::arithmetic` (building blocks of every chain above and of
+// the field arithmetic): a + b + carry, a - b - borrow, a + b*c (+ carry), each with the exact lost carry/borrow
+// ---------------------------------------------------------------------------------------
+
+fn primitives(t: &mut Tape<'_>, o: &mut Obs) -> R {
+    let (a, b, c, k) = if t.chance(1, 16) {
+        // the one input on which a + b*c + carry fills all 128 bits
+        (u64::MAX, u64::MAX, u64::MAX, u64::MAX)
+    } else {
+        (t.edge_u64(), t.edge_u64(), t.edge_u64(), t.edge_u64())
+    };
+    let bit = t.below(2);
+    o.show(|| format!("limb primitives a={:#x} b={:#x} c={:#x} carry={:#x} bit={}", a, b, c, k, bit));
+    let w = pow2(64);
+    let (ab, bb, cb, kb) = (BigUint::from(a), BigUint::from(b), BigUint::from(c), BigUint::from(k));
+    let split = |v: &BigUint| -> (u64, u64) {
+        let lo = (v % &w).to_u64_digits().first().copied().unwrap_or(0);
+        let hi = (v >> 64usize).to_u64_digits().first().copied().unwrap_or(0);
+        (lo, hi)
+    };
+    o.nt(&ab + &bb + &kb >= w || &bb * &cb >= w);
+    o.class_if(&ab + &bb * &cb + &kb == &w * &w - 1u32, "mac-with-carry-saturates-128-bits");
+    o.class_if(&ab + &bb + &kb >= w, "adc-carries");
+    o.class_if(ab < &bb + bit, "sbb-borrows");
+    o.evals(12);
+    // adc: a + b + carry (any carry word), returns the new carry
+    let s = &ab + &bb + &kb;
+    ensure!(s < &w * 3u32, "oracle", "unreachable");
+    let mut x = a;
+    let cy = fa::adc(&mut x, b, k);
+    ensure_eq!((x, cy), split(&s), "adc");
+    ensure_eq!(fa::adc_no_carry(a, b, &k), split(&s).0, "adc_no_carry");
+    // adc / sbb on a one-bit flag
+    let s1 = &ab + &bb + bit;
+    let mut x = a;
+    let cy = fa::adc_for_add_with_carry(&mut x, b, bit as u8);
+    ensure_eq!((x, cy as u64), split(&s1), "adc_for_add_with_carry");
+    let sub = &bb + bit;
+    let (d, borrow) = if ab >= sub { (&ab - &sub, 0u8) } else { (&w + &ab - &sub, 1u8) };
+    let mut x = a;
+    let bo = fa::sbb_for_sub_with_borrow(&mut x, b, bit as u8);
+    ensure_eq!((x, bo), (split(&d).0, borrow), "sbb_for_sub_with_borrow");
+    // widening product and multiply-accumulate
+    let prod = &bb * &cb;
+    let wm = fa::widening_mul(b, c);
+    ensure_eq!((wm as u64, (wm >> 64) as u64), split(&prod), "widening_mul");
+    let m = &ab + &prod;
+    let mut cy = k;
+    let lo = fa::mac(a, b, c, &mut cy);
+    ensure_eq!((lo, cy), split(&m), "mac");
+    let mut cy = k;
+    fa::mac_discard(a, b, c, &mut cy);
+    ensure_eq!(cy, split(&m).1, "mac_discard");
+    let mc = &ab + &prod + &kb;
+    let mut cy = k;
+    let lo = fa::mac_with_carry(a, b, c, &mut cy);
+    ensure_eq!((lo, cy), split(&mc), "mac_with_carry");
     Ok(())
 }
 
@@ -409,11 +478,13 @@ fn conv<const N: usize>(t: &mut Tape<'_>, o: &mut Obs) -> R {
         1 => {
             // bit vectors -> BigInt. Shorter, equal and longer than 64N; bits beyond 64N are zero (the value fits).
             let (a, ac) = gen_val::<N>(t);
-            let len = match t.weighted(&[1, 3, 3, 3]) {
+            let len = match t.weighted(&[1, 3, 3, 3, 3]) {
                 0 => 0,
                 1 => t.below(64 * N as u64) as usize,
                 2 => 64 * N,
-                _ => 64 * N + 1 + t.below(130) as usize,
+                3 => 64 * N + 1 + t.below(130) as usize,
+                // one bit short of / exactly at / one bit beyond a limb boundary (chunking of the bit vector)
+                _ => (64 * (1 + t.below(N as u64 + 1)) as usize + t.below(3) as usize).saturating_sub(1),
             };
             let v = big(&a) % pow2(len.min(64 * N));
             o.show(|| format!("N={} from_bits_le/be of {} bits, value {} [{}]", N, len, hx(&v), ac));
@@ -421,6 +492,8 @@ fn conv<const N: usize>(t: &mut Tape<'_>, o: &mut Obs) -> R {
             o.class(ac);
             o.class_if(len < 64 * N, "bits-shorter-than-width");
             o.class_if(len > 64 * N, "bits-longer-than-width");
+            o.class_if(len > 64 && len < 64 * N && len % 64 != 0, "bits-ragged-multi-limb");
+            o.class_if(len % 64 == 1 || len % 64 == 63, "bits-next-to-limb-boundary");
             o.evals(2);
             let le = bits_le_of(&v, len);
             let mut be = le.clone();
@@ -758,6 +831,10 @@ fn relations(tier: Tier) -> Vec<Rel> {
         )*};
     }
     reg!(1, 2, 3, 4, 5, 6, 7, 8, 9, 10, 11, 12, 13);
+    // beyond the largest `BigIntegerNNN` alias: widths at which the unrolled limb loops (`unroll_for_loops(6)`) run
+    // several full rounds plus a remainder, and the widths of the >13-limb fields of C01/C20
+    reg!(14, 16, 24, 25);
+    out.push(Rel::new("limb-primitives", q(60000), 12, primitives));
     out.push(Rel::new("wnaf-w63/N1-13", q(40000), 2 * 13 + 16, wnaf63));
     out
 }
@@ -765,7 +842,7 @@ fn relations(tier: Tier) -> Vec<Rel> {
 fn main() {
     vh_core::engine::main(PropSpec {
         id: "C15",
-        rule: "BigInt<N> for N = 1..13. Operands decoded from a proptest tape: 0, 1, 2, 3, 2^k and 2^k-1 (k next to limb boundaries half of the time), all ones, alternating limbs / bit patterns, 2^(64N)-1-small, edge limbs, small, uniform; second operands correlated 1/5 of the time (a, !a, -a, a+-1); shift amounts 0, 1, 63, 64, 65, 64N-1, 64N, 64N+1, u32::MAX, multiples of 64, uniform up to 64N+65; bit vectors shorter/equal/longer than 64N (excess bits zero); decimal strings and BigUint around 2^(64N) with leading zeros; windows 2..63 (and invalid ones); recodings additionally on values within 2^(w-1) of 2^(64N) and exhaustively on the smallest and largest values of every width. Oracle: num-bigint. Non-trivial: arith - a carry or borrow leaves some limb; shift - value != 0 and (shift >= 64 or a bit crosses a limb boundary / falls off); mul - product wider than 64 bits; conversions - value wider than one limb (or > 1 for N = 1), length != 64N, or too wide; const helpers - same; recodings - value > 3 and the recoding contains a negative digit (a carry was propagated). distinct = distinct decoded choice sequences.",
+        rule: "BigInt<N> for N = 1..13 and 14, 16, 24, 25 (beyond the largest alias: several full rounds of the unrolled limb loops). Operands decoded from a proptest tape: 0, 1, 2, 3, 2^k and 2^k-1 (k next to limb boundaries half of the time), all ones, alternating limbs / bit patterns, 2^(64N)-1-small, edge limbs, small, uniform; second operands correlated 1/5 of the time (a, !a, -a, a+-1); shift amounts 0, 1, 63, 64, 65, 64N-1, 64N, 64N+1, u32::MAX, multiples of 64, uniform up to 64N+65; bit vectors shorter/equal/longer than 64N (excess bits zero) incl. lengths one bit short of / at / beyond every limb boundary; decimal strings and BigUint around 2^(64N) with leading zeros; windows 2..63 (and invalid ones); recodings additionally on values within 2^(w-1) of 2^(64N) and exhaustively on the smallest and largest values of every width. Additionally limb-primitives: the public single-limb building blocks adc, adc_for_add_with_carry, adc_no_carry, sbb_for_sub_with_borrow, widening_mul, mac, mac_discard, mac_with_carry on edge words (0, 1, MAX, 2^k, 2^k-1, small, uniform) for every argument incl. the carry word, results and carries against BigUint. Oracle: num-bigint. Non-trivial: limb-primitives - the sum or the product leaves the limb; arith - a carry or borrow leaves some limb; shift - value != 0 and (shift >= 64 or a bit crosses a limb boundary / falls off); mul - product wider than 64 bits; conversions - value wider than one limb (or > 1 for N = 1), length != 64N, or too wide; const helpers - same; recodings - value > 3 and the recoding contains a negative digit (a carry was propagated). distinct = distinct decoded choice sequences.",
         assumptions: &[
             "num-bigint arithmetic, parsing and printing are correct (oracle)",
             "from_bits_le/be are only given bit vectors whose bits beyond position 64N are zero (behaviour for wider values is not documented)",
